@@ -8,6 +8,12 @@ from .heap import cls_of
 from .world import Unsupported
 from . import ops, contracts, repo
 from .engine import Static, static, SpecCtx
+from . import trace
+
+
+def _unopt(v):
+    """specifications guard Optional operands themselves (`x is not None and x - y > 1`)"""
+    return SV(v.ty.inner, v.t[1:]) if isinstance(v.ty, TOpt) else v
 
 
 class SpecEval:
@@ -41,6 +47,8 @@ class SpecEval:
         return self.E.lift_const(e.value)
 
     def s_Name(self, e, cx):
+        if e.id in cx.bound:
+            return cx.bound[e.id]
         if e.id in cx.env:
             return cx.env[e.id]
         if e.id in contracts.SPECFNS or e.id in contracts.SPECPREDS:
@@ -89,7 +97,11 @@ class SpecEval:
             hi = self.sev(e.slice.upper, cx) if e.slice.upper is not None else None
             return ops.op_slice(cx.heap, v, lo, hi)
         idx = self.sev(e.slice, cx)
-        val, fail = ops.op_index(cx.heap, v, idx)
+        ops.SPEC_MODE[0] = True
+        try:
+            val, fail = ops.op_index(cx.heap, v, idx)
+        finally:
+            ops.SPEC_MODE[0] = False
         return val
 
     def s_UnaryOp(self, e, cx):
@@ -101,8 +113,8 @@ class SpecEval:
         raise Unsupported('spec unary')
 
     def s_BinOp(self, e, cx):
-        a = self.sev(e.left, cx)
-        b = self.sev(e.right, cx)
+        a = _unopt(self.sev(e.left, cx))
+        b = _unopt(self.sev(e.right, cx))
         val, fail = ops.op_binop(e.op, a, b, cx.heap)
         return val
 
@@ -124,7 +136,12 @@ class SpecEval:
                 c = z3.Or([eq(left, self.E.lift_const(k)) for k in right.py.obj] + [z3.BoolVal(False)])
                 c = c if isinstance(op, ast.In) else z3.Not(c)
             else:
-                c = ops.op_compare(op, left, right, cx.heap, self.W)
+                if isinstance(op, (ast.Lt, ast.LtE, ast.Gt, ast.GtE)) and (isinstance(left.ty, TNone) or isinstance(right.ty, TNone)):
+                    c = z3.BoolVal(False)     # unspecified: specifications guard None themselves
+                elif isinstance(op, (ast.Lt, ast.LtE, ast.Gt, ast.GtE)):
+                    c = ops.op_compare(op, _unopt(left), _unopt(right), cx.heap, self.W)
+                else:
+                    c = ops.op_compare(op, left, right, cx.heap, self.W)
             conds.append(c)
             left = right
         return mk_bool(z3.And(conds) if len(conds) > 1 else conds[0])
@@ -142,7 +159,7 @@ class SpecEval:
         bound_sv = mk_int(k)
         guards = []
         if isinstance(it, ast.Call) and isinstance(it.func, ast.Name) and it.func.id == 'range':
-            args = [coerce(self.sev(a, cx), INT).term for a in it.args]
+            args = [coerce(_unopt(self.sev(a, cx)), INT).term for a in it.args]
             lo, hi = (z3.IntVal(0), args[0]) if len(args) == 1 else (args[0], args[1])
             guards = [lo <= k, k < hi]
         elif isinstance(it, ast.Call) and isinstance(it.func, ast.Name) and it.func.id == 'ints':
@@ -200,6 +217,8 @@ class SpecEval:
             if n == 'typed':
                 # typed(x, 'type expr'): declares the type of an otherwise untyped name (lemma parameters)
                 return self.sev(e.args[0], cx)
+            if n in trace.ACCESSORS and n not in cx.env:
+                return trace.read(self.W, cx.heap, trace.ACCESSORS[n])
             if n in contracts.SPECFNS:
                 return self.apply_specfn(contracts.SPECFNS[n], [self.sev(a, cx) for a in e.args], cx)
             if n in contracts.SPECPREDS:
@@ -303,7 +322,7 @@ class SpecEval:
     # ---- spec functions: UF + bounded unfolding
     def uf(self, sf):
         if sf.name not in self.ufs:
-            dom = []
+            dom = [I] if sf.heap_dep else []
             for p in sf.params:
                 dom += self.W.parse_type(sf.types[p]).comps()
             rty = self.W.parse_type(sf.ret)
@@ -321,11 +340,17 @@ class SpecEval:
         f = self.uf(sf)
         targs = []
         cargs = []
+        epoch = None
+        if sf.heap_dep:
+            epoch = cx.heap.read_global('$epoch', INT)
+            targs.append(epoch.term)
         for p, a in zip(sf.params, args):
             a = coerce(a, self.W.parse_type(sf.types[p]))
             cargs.append(a)
             targs += list(a.t)
         app = f(*targs)
+        if epoch is not None:
+            cargs.append(epoch)
         rty = self.W.parse_type(sf.ret)
         if cx.st is not None and not sf.opaque:
             cx.st.apps.append((sf, tuple(cargs), app))
@@ -347,6 +372,9 @@ class SpecEval:
                 seen.add(key)
                 class _St: pass
                 st = _St(); st.apps = []
+                if sf.heap_dep:
+                    heap = heap.copy()
+                    heap.write_global('$epoch', INT, cargs[-1])
                 cx = SpecCtx(dict(zip(sf.params, cargs)), heap, st=st)
                 body = self.fn_body_expr(sf.node)
                 val = coerce(self.sev(body, cx), self.W.parse_type(sf.ret))
@@ -356,6 +384,32 @@ class SpecEval:
                 nxt += st.apps
             todo = nxt
         return facts
+
+    def definitional_axiom(self, sf):
+        """forall params. f(params) == body   (trigger: the application itself)"""
+        from .heap import Heap
+        ptys = [self.W.parse_type(sf.types[p]) for p in sf.params]
+        args = [fresh(t, 'q_' + p) for t, p in zip(ptys, sf.params)]
+        heap = Heap()
+        bound = []
+        targs = []
+        if sf.heap_dep:
+            ep = z3.Int(fresh_name('q_epoch'))
+            heap.write_global('$epoch', INT, mk_int(ep))
+            bound.append(ep); targs.append(ep)
+        for a in args:
+            bound += list(a.t); targs += list(a.t)
+        class _St: pass
+        st = _St(); st.apps = []
+        cx = SpecCtx(dict(zip(sf.params, args)), heap, st=st)
+        val = coerce(self.sev(self.fn_body_expr(sf.node), cx), self.W.parse_type(sf.ret))
+        cx.facts += ops.drain_facts()
+        app = self.uf(sf)(*targs)
+        body = app == val.term
+        if cx.facts:
+            body = z3.And([body] + cx.facts)
+        import os
+        return z3.ForAll(bound, body, patterns=[app], weight=int(os.environ.get('PYVC_DEFW', '3')))
 
     def fn_body_expr(self, node):
         """turn `if c: return a` chains + final return into one conditional expression"""
@@ -387,7 +441,31 @@ class SpecEval:
         name = fn.__name__
         c = contracts.REG.get(q)
         allargs = ([recv] if recv is not None else []) + args
-        key = 'pure_' + name
+        c_inl = c
+        if recv is not None and isinstance(recv.ty, TObj) and (c is None or not c.interface_flag):
+            # unique concrete override?
+            cands = {}
+            for d in self.W.subclasses(recv.ty.cls):
+                try:
+                    a = inspect.getattr_static(d, name)
+                except AttributeError:
+                    continue
+                if isinstance(a, types.FunctionType):
+                    cands[a] = True
+            if len(cands) == 1:
+                fn = next(iter(cands))
+                c_inl = contracts.REG.get(repo.qualname_of(fn))
+        if c_inl is not None and c_inl.kind == 'inline':
+            node = repo.func_ast(fn)
+            body = self.fn_body_expr(node)
+            params = [a.arg for a in node.args.args]
+            env = dict(zip(params, allargs))
+            fr = type('F', (), {})()
+            from .engine import Frame
+            c2 = SpecCtx(env, cx.heap, env, cx.old_heap, cx.st, Frame(fn, c_inl))
+            c2.facts = cx.facts
+            return self.sev(body, c2)
+        key = 'pure_' + name + '_' + '_'.join(sortname(s_) for a in allargs for s_ in a.ty.comps())
         rty = None
         # the interface-level UF: one function per method *name* (dynamic dispatch is inside it)
         for cand in [c] + [contracts.REG.get(k) for k in contracts.REG if k.endswith('.' + name)]:
@@ -399,13 +477,17 @@ class SpecEval:
                 rty = self.W.return_type(fn, c)
             except Unsupported:
                 raise Unsupported('pure call %s without return type' % q)
-        if key not in self.ufs:
-            dom = [I]  # heap epoch
-            for a in allargs:
-                dom += a.ty.comps()
-            self.ufs[key] = z3.Function(key, *(dom + rty.comps()))
+        dom = [I]  # heap epoch
+        for a in allargs:
+            dom += a.ty.comps()
         epoch = cx.heap.read_global('$epoch', INT).term
         targs = [epoch]
         for a in allargs:
             targs += list(a.t)
-        return SV(rty, [self.ufs[key](*targs)])
+        outs = []
+        for ci, rs in enumerate(rty.comps()):
+            k2 = '%s#%d' % (key, ci)
+            if k2 not in self.ufs:
+                self.ufs[k2] = z3.Function(k2, *(dom + [rs]))
+            outs.append(self.ufs[k2](*targs))
+        return SV(rty, outs)
